@@ -74,6 +74,9 @@ def rho_matrix(chroms):
     return M
 
 
+_TABLE_MODE = {"2w": itertools.count(1), "3w": itertools.count(2)}
+
+
 def one_case(cid, rng, scheme, s, genic, cov, thorough):
     import importlib
     from pybrops.popgen.gmat.DensePhasedGenotypeMatrix import DensePhasedGenotypeMatrix
@@ -125,7 +128,8 @@ def one_case(cid, rng, scheme, s, genic, cov, thorough):
                 pm = [int(str(x)[1:]) for x in obj.taxa]       # taxa are named p<i>
                 c["inplace"] = how
             M = np.asarray(obj.mat, dtype=float)
-            if not cov and scheme in ("2w", "3w") and rng.random() < 0.5:
+            tmode = next(_TABLE_MODE[scheme]) % 4 if (not cov and scheme in ("2w", "3w")) else 0   # 0 matrix, 1 exported table, 2 / 3 partial table loaded
+            if tmode:
                 # the variances are read through the EXPORTED table (to_pandas): the row naming a cross by its parents' names holds
                 # the variance of that cross, whatever happened to the matrix in place before
                 try:
@@ -138,11 +142,33 @@ def one_case(cid, rng, scheme, s, genic, cov, thorough):
                     for _, r_ in df.iterrows():
                         M2[tuple(names.index(str(r_[cc])) for cc in cols) + (tn.index(str(r_["trait"])),)] = float(r_["variance"])
                     M = M2; c["via_table"] = True
+                    if tmode >= 2:
+                        # ... and the table is LOADED again (from_pandas) after rows were dropped from it: one row per unordered cross, or a
+                        # hand-picked subset of crosses, so that some parents stand in one parent column only.  The loaded matrix holds, for
+                        # every cross the table lists, the variance the table gives for it
+                        pos_of = lambda r_: tuple(names.index(str(r_[cc])) for cc in cols)
+                        if tmode == 2:
+                            keep = [pos_of(r_)[-2] <= pos_of(r_)[-1] for _, r_ in df.iterrows()]
+                        else:
+                            chosen = set(rng.sample(list(itertools.product(range(n), repeat=K)), max(1, (n ** K) // 3)))
+                            keep = [pos_of(r_) in chosen for _, r_ in df.iterrows()]
+                        part = df[np.array(keep, dtype=bool)].reset_index(drop=True)
+                        if len(part):
+                            obj2 = type(obj).from_pandas(part)
+                            names2 = [str(x) for x in obj2.taxa]
+                            tn2 = [str(x) for x in obj2.trait] if obj2.trait is not None else tn
+                            M3 = np.full(M.shape, np.nan); listed = set()
+                            for _, r_ in part.iterrows():
+                                ps = pos_of(r_); listed.add(ps)
+                                M3[ps + (tn.index(str(r_["trait"])),)] = float(np.asarray(obj2.mat)[tuple(names2.index(str(r_[cc])) for cc in cols) + (tn2.index(str(r_["trait"])),)])
+                            M = M3; c["via_table"] = "partial table loaded"; c["listed"] = listed
                 except (AttributeError, NotImplementedError):
                     pass
             ok = True
             ents = []
             tuples = list(itertools.product(range(n), repeat=K))
+            if c.get("listed"):
+                tuples = sorted(c.pop("listed"))
             if len(tuples) > 40:
                 tuples = rng.sample(tuples, 40)
             for pos in tuples:
